@@ -16,7 +16,7 @@ from circuits.core.components import BaseComponent
 from circuits.core.events import generate_events
 from circuits.core.handlers import handler
 from circuits.net.events import close, connect as connect_event, write
-from circuits.net.sockets import UNIXClient, UNIXServer
+from circuits.net.sockets import TCPServer, UNIXClient, UNIXServer
 
 from mc import core, e1_history
 
@@ -25,10 +25,15 @@ LEVEL = 'model_checking'
 RULE = ('BFS over histories of {connect, send 1 byte, send 5 bytes, shutdown(WR), close, server write, server write of 1 MiB while the '
         'peer does not read, server close, and the same server-side write/close issued late, after the disconnect} over two '
         'connections to a real UNIXServer, replayed under Select, Poll and EPoll; plus client histories {peer sends, peer closes, '
-        'client writes, client closes} for a real UNIXClient; state = ghost phases + kernel-visible socket state + server/poller '
+        'client writes, client closes} for a real UNIXClient; plus a TCP family over a real TCPServer on the loopback interface '
+        '{connect, connect-and-reset-before-accept (SO_LINGER 0), send, reset, close, server write, server close, late write/close}; state = ghost phases + kernel-visible socket state + server/poller '
         'tables; non-trivial = history in which a connection was established and ended; distinct = distinct canonical state')
 ASSUMPTIONS = [
-    'AF_UNIX stream sockets (abortive close = peer closes with unread data); TCP RST via SO_LINGER is not in the quick alphabet',
+    'AF_UNIX stream sockets for the main family (abortive close = peer closes with unread data); TCP RST via SO_LINGER 0 in the TCP family, '
+    'where every kernel effect is awaited explicitly (socket readable, /proc/net/tcp entry gone) before the loop is stepped',
+    'a connection reset before the server accepted it may be announced (connect .. disconnect) or reported as error + disconnect without '
+    'connect (the documented handling of a failed handshake); what is demanded: at most one connect, no data, a disconnect if anything was '
+    'said about the socket, the socket closed and no trace in server or poller tables',
     'after every operation three zero-time-out loop iterations are made; peer effects on AF_UNIX sockets are synchronous',
     'read data must equal what the peer sent when the peer ended the connection, and be a prefix of it when the server did',
     'server and poller tables are read through getattr at quiescence (no residue clause of the statement)',
@@ -63,14 +68,19 @@ class Obs(BaseComponent):
 
 
 class Sub:
-    def __init__(self, pname, idx):
+    def __init__(self, pname, idx, tcp=False):
         self.pname = pname
+        self.tcp = tcp
         self.root = BaseComponent()
         self.poller = getattr(pollers_mod, pname)().register(self.root)
         self.path = os.path.join(tmpdir(), 's%d' % idx)
         if os.path.exists(self.path):
             os.unlink(self.path)
-        self.server = UNIXServer(self.path, channel='srv').register(self.root)
+        if tcp:
+            self.server = TCPServer(('127.0.0.1', 0), channel='srv').register(self.root)
+            self.port = self.server._sock.getsockname()[1]
+        else:
+            self.server = UNIXServer(self.path, channel='srv').register(self.root)
         self.log = []
         obs = Obs(channel='srv')
         obs.log = self.log
@@ -288,6 +298,29 @@ class ConnModel(e1_history.Model):
                 names = [e[0] for e in evs if e[0] != 'error']
                 if s['phase'] == 'none':
                     continue
+                if s['phase'] == 'crst':
+                    # the peer reset the connection before the server accepted it: the server can announce it (if it still learns the
+                    # peer's address) or report an error; either way at most one connect, no data, exactly one disconnect if anything
+                    # was said about the socket at all, and no trace afterwards
+                    allnames = [e[0] for e in evs]
+                    st.counters['connections_reset_before_accept'] += 1
+                    if names not in ([], ['disconnect'], ['connect', 'disconnect']):
+                        bad.append(('automaton:reset-before-accept', '%s: connection %d (reset before accept) event stream %r' % (sub.pname, c, allnames)))
+                    elif names == ['disconnect'] and 'error' not in allnames[:allnames.index('disconnect')]:
+                        bad.append(('automaton:reset-before-accept', '%s: connection %d: disconnect without connect or error: %r' % (sub.pname, c, allnames)))
+                    elif allnames and allnames[-1] != 'disconnect':
+                        bad.append(('automaton:no-disconnect', '%s: connection %d was reset before accept, the server said %r about its socket '
+                                    'but never disconnect' % (sub.pname, c, allnames)))
+                    sock = sub.socks.get(c)
+                    if sock is not None:
+                        res = residue(sub, sock)
+                        if res:
+                            bad.append(('residue:reset-before-accept:' + '+'.join(sorted(r[0] for r in res)),
+                                        '%s: state for the socket of connection %d (reset before accept) is retained in %r' % (sub.pname, c, res)))
+                        if sock.fileno() >= 0:
+                            bad.append(('residue:reset-before-accept:open-socket', '%s: the socket of connection %d (reset before accept) was never closed' % (sub.pname, c)))
+                    stream_obs.append((c, tuple(names), b''))
+                    continue
                 # automaton connect . read* . disconnect, nothing afterwards
                 ok = bool(names) and names[0] == 'connect' and names.count('connect') == 1
                 nd = names.count('disconnect')
@@ -310,7 +343,7 @@ class ConnModel(e1_history.Model):
                     bad.append(('automaton:spurious-disconnect', '%s: connection %d is open on both sides but got disconnect: %r' % (sub.pname, c, names)))
                 data = b''.join(e[1] for e in evs if e[0] == 'read')
                 sent = sub.sent.get(c, b'')
-                if s['sclosed']:
+                if s['sclosed'] or s.get('reset'):
                     if not sent.startswith(data):
                         bad.append(('data:not-prefix', '%s: connection %d read %r, peer sent %r' % (sub.pname, c, data, sent)))
                 elif s['ended'] or True:
@@ -325,6 +358,16 @@ class ConnModel(e1_history.Model):
                         kind = 'late-write' if s['late_w'] else ('late-close' if s['late_c'] else 'plain')
                         bad.append(('residue:%s:%s' % (kind, '+'.join(sorted(r[0] for r in res))),
                                     '%s: after the disconnect of connection %d state is retained in %r' % (sub.pname, c, res)))
+            # the poller watches nothing but the listening socket and connections that have not been disconnected yet
+            live = [sub.socks[c] for c in sub.socks if 'disconnect' not in [e[0] for e in per.get(c, [])]]
+            for attr in ('_read', '_write'):
+                for x in list(getattr(sub.poller, attr, []) or []):
+                    if isinstance(x, int) or x is getattr(sub.server, '_sock', None) or any(x is y for y in live):
+                        continue
+                    if any(x is y for y in sub.socks.values()):
+                        continue      # (a disconnected connection's socket: reported by the residue clause above)
+                    bad.append(('residue:stray-poller-entry', '%s: the poller still watches (%s) a socket that belongs to no announced, '
+                                'live connection: %r' % (sub.pname, attr, x)))
             if len(sub.log) != before and all(g[c]['ended'] or g[c]['phase'] == 'none' for c in range(self.nconn)):
                 extra = [(n, d) for n, s_, d in sub.log[before:]]
                 bad.append(('not-quiescent', '%s: events still fired after everything had ended: %r' % (sub.pname, extra)))
@@ -346,7 +389,8 @@ class ConnModel(e1_history.Model):
             if (kind, text) in seen:
                 continue
             seen.add((kind, text))
-            st.fail(kind, '%s  [history %r]' % (text, list(hist)), {'nconn': self.nconn, 'ops': self.ops, 'hist': [list(o) for o in hist]})
+            st.fail(kind, '%s  [%shistory %r]' % (text, 'TCP ' if isinstance(self, TcpModel) else '', list(hist)),
+                    {'nconn': self.nconn, 'ops': self.ops, 'hist': [list(o) for o in hist], 'tcp': isinstance(self, TcpModel)})
         if len(hist) == 3 and len(st.samples) < 2:
             st.sample({'hist': [list(o) for o in hist], 'streams': repr(streams[0])})
 
@@ -384,6 +428,164 @@ class ConnModel(e1_history.Model):
         gs = tuple(tuple(sorted(g[c].items())) for c in range(self.nconn))
         sent = tuple(w.subs[0].sent.get(c) for c in range(self.nconn))
         return (gs, sent, tuple(out))
+
+
+# ---- TCP family: abortive closes (RST through SO_LINGER 0), also before the server has accepted the connection ------------
+
+TCP_OPS = ['connect', 'crst', 'send5', 'rst', 'pclose', 'swrite', 'sclose']
+
+
+def tcp_state(lport, rport):
+    """state column of /proc/net/tcp for the server-side end of a loopback connection (None: no such socket any more)"""
+    try:
+        lines = open('/proc/net/tcp').read().splitlines()[1:]
+    except OSError:
+        return 'unreadable'
+    for line in lines:
+        f = line.split()
+        if int(f[1].split(':')[1], 16) == lport and int(f[2].split(':')[1], 16) == rport:
+            return f[3]
+    return None
+
+
+def wait_until(pred, what, w, timeout=2.0):
+    import time
+    end = time.time() + timeout
+    while time.time() < end:
+        if pred():
+            return True
+        time.sleep(0.0005)
+    w.selfcheck.append('kernel effect not observed within %.1f s: %s' % (timeout, what))
+    return False
+
+
+def readable(sock):
+    try:
+        return sock.fileno() < 0 or bool(select.select([sock], [], [], 0)[0])
+    except (OSError, ValueError):
+        return True
+
+
+class TcpModel(ConnModel):
+    """Same automaton over a real TCPServer on the loopback interface.  Peer effects are awaited explicitly (listening socket /
+    server-side socket readable, embryonic connection gone from /proc/net/tcp) before the loop is stepped, so every history
+    is deterministic."""
+
+    def __init__(self, nconn, ops=TCP_OPS):
+        ConnModel.__init__(self, nconn, ops)
+
+    def ghost(self, hist):
+        g = {c: {'phase': 'none', 'shut': False, 'peer_open': False, 'ended': False, 'late_w': 0, 'late_c': 0, 'sclosed': False,
+                 'filled': False, 'swrites': 0, 'big': False, 'reset': False} for c in range(self.nconn)}
+        for op, c in hist:
+            s = g[c]
+            if op == 'connect':
+                s['phase'], s['peer_open'] = 'open', True
+            elif op == 'crst':
+                s['phase'], s['peer_open'], s['ended'], s['reset'] = 'crst', False, True, True
+            elif op == 'rst':
+                s['peer_open'], s['ended'], s['reset'] = False, True, True
+            elif op == 'pclose':
+                s['peer_open'] = False
+                s['ended'] = True
+            elif op == 'sclose':
+                if s['ended']:
+                    s['late_c'] += 1
+                s['sclosed'] = True
+                s['ended'] = True
+            elif op == 'swrite':
+                if s['ended']:
+                    s['late_w'] += 1
+                else:
+                    s['swrites'] += 1
+        return g
+
+    def enabled(self, hist):
+        g = self.ghost(hist)
+        out = []
+        for c in range(self.nconn):
+            s = g[c]
+            for op in self.ops:
+                if op in ('connect', 'crst'):
+                    ok = s['phase'] == 'none'
+                elif op == 'send5':
+                    ok = s['phase'] == 'open' and s['peer_open']
+                elif op in ('pclose', 'rst'):
+                    ok = s['phase'] == 'open' and s['peer_open']
+                elif op == 'swrite':
+                    ok = s['phase'] in ('open', 'crst') and (s['late_w'] < 1 if s['ended'] else s['swrites'] < 2)
+                elif op == 'sclose':
+                    ok = s['phase'] in ('open', 'crst') and (s['late_c'] < 1 if s['ended'] else True)
+                else:
+                    ok = False
+                if ok:
+                    out.append((op, c))
+        return out
+
+    def build(self, hist):
+        w = World()
+        w.selfcheck = []
+        w.never_accepted = []
+        w.subs = [Sub(p, i, tcp=True) for i, p in enumerate(POLLERS)]
+        for op in hist:
+            for sub in w.subs:
+                self.apply(sub, op, w)
+        w.ghost = self.ghost(hist)
+        return w
+
+    def apply(self, sub, op, w):
+        import struct
+        name, c = op
+        ls = sub.server._sock
+        if name in ('connect', 'crst'):
+            p = socket.socket(socket.AF_INET, socket.SOCK_STREAM)
+            p.settimeout(2.0)
+            p.connect(('127.0.0.1', sub.port))
+            pport = p.getsockname()[1]
+            sub.peers[c] = p
+            sub.sent[c] = b''
+            wait_until(lambda: readable(ls), 'listening socket readable after connect()', w)
+            if name == 'crst':
+                # abortive close before the server loop gets to accept(): accept() still succeeds, getpeername() fails
+                p.setsockopt(socket.SOL_SOCKET, socket.SO_LINGER, struct.pack('ii', 1, 0))
+                p.close()
+                wait_until(lambda: tcp_state(sub.port, pport) in (None, '07'), 'embryonic connection reset', w)
+            else:
+                p.setblocking(False)
+            before = len(sub.log)
+            sub.steps(3)
+            for nm, sock, _d in sub.log[before:]:
+                if sock is not None and nm in ('connect', 'error', 'disconnect', 'read') and not any(sock is x for x in sub.socks.values()):
+                    sub.socks.setdefault(c, sock)
+            if name == 'connect' and c not in sub.socks:
+                w.never_accepted.append('%s: the connect() of connection %d succeeded but the server announced no connect within 3 iterations' % (sub.pname, c))
+            return
+        p = sub.peers.get(c)
+        sock = sub.socks.get(c)
+        if name == 'send5':
+            try:
+                p.send(b'hello')
+                sub.sent[c] += b'hello'
+                if sock is not None:
+                    wait_until(lambda: readable(sock), 'server-side socket readable after send()', w)
+            except OSError:
+                pass
+        elif name == 'pclose':
+            p.close()
+            if sock is not None:
+                wait_until(lambda: readable(sock), 'server-side socket readable after close()', w)
+        elif name == 'rst':
+            p.setsockopt(socket.SOL_SOCKET, socket.SO_LINGER, struct.pack('ii', 1, 0))
+            p.close()
+            if sock is not None:
+                wait_until(lambda: readable(sock), 'server-side socket readable after reset', w)
+        elif name == 'swrite':
+            if sock is not None:
+                sub.root.fire(write(sock, b'data'), 'srv')
+        elif name == 'sclose':
+            if sock is not None:
+                sub.root.fire(close(sock), 'srv')
+        sub.steps(3)
 
 
 def cleanup_tmp():
@@ -593,6 +795,11 @@ def run(tier, seed, workers):
             st.bounds = {'server_conns%d_ops%d' % (nconn, len(ops)): dict(st.bounds)}
             states += st.states
             total.merge(st)
+        for nconn, depth in ([(1, 4), (2, 3)] if tier == 'quick' else [(1, 6), (2, 5)]):
+            st = e1_history.bfs(TcpModel(nconn), depth, workers, seed, max_states=200000)
+            st.bounds = {'tcp_server_conns%d_ops%d' % (nconn, len(TCP_OPS)): dict(st.bounds)}
+            states += st.states
+            total.merge(st)
         st = e1_history.bfs(ClientModel(), 4 if tier == 'quick' else 6, workers, seed)
         st.bounds = {'client': dict(st.bounds)}
         states += st.states
@@ -600,7 +807,7 @@ def run(tier, seed, workers):
     finally:
         cleanup_tmp()
     total.states = states
-    for c in ('histories_with_an_ended_connection', 'histories_with_late_write_or_close', 'client_histories'):
+    for c in ('histories_with_an_ended_connection', 'histories_with_late_write_or_close', 'client_histories', 'connections_reset_before_accept'):
         if not total.counters[c]:
             total.selfcheck_errors.append('vacuity: ' + c)
     return total
@@ -608,7 +815,7 @@ def run(tier, seed, workers):
 
 def replay(wj):
     hist = tuple(tuple(o) for o in wj['hist'])
-    model = ClientModel() if wj.get('client') else ConnModel(wj['nconn'], wj['ops'])
+    model = ClientModel() if wj.get('client') else (TcpModel(wj['nconn'], wj['ops']) if wj.get('tcp') else ConnModel(wj['nconn'], wj['ops']))
     w = model.build(hist)
     st = core.Stats()
     try:
